@@ -2,6 +2,7 @@ CONSTANTS
  Scenario = 1
  InitTtl = "none"
  Variant = "no_barrier"
+ GetdelBlocking = TRUE
  OwnerSwitch = "sync"
  Ops <- MCOps
  Kind <- MCKind
